@@ -114,6 +114,7 @@ type Frame struct {
 	iterOf   map[*ssa.BasicBlock]Term // rangeindex loops: iterations completed at header
 	mapRange map[ssa.Value]*mapRangeInfo
 	curSt    *State
+	curBlock *ssa.BasicBlock
 }
 
 type retInfo struct {
@@ -147,6 +148,12 @@ type FuncEnc struct {
 	assumes  map[string]bool // notes for evidence
 	inputs   []ModelInput
 	props    []string
+	bvOffsets map[string]bvOffset
+}
+
+type bvOffset struct {
+	base  Term
+	delta int64
 }
 
 var symRe = regexp.MustCompile(`[A-Za-z_][A-Za-z0-9_.$@!]*`)
@@ -382,9 +389,14 @@ func (fe *FuncEnc) constTerm(c *ssa.Const) Term {
 func (fe *FuncEnc) wf(x Term, t types.Type, st *State) Term {
 	switch u := t.Underlying().(type) {
 	case *types.Slice:
-		return Term{"(wfSlice " + x.S + ")", SBool}
+		es := fe.eng.sorts.sortOf(u.Elem())
+		a := fe.comp(st, "A_E_"+sortKey(es), arrSort(SInt, SBool))
+		return Term{fmt.Sprintf("(and (wfSlice %s) (=> (not (= (s.ref %s) 0)) (select %s (s.ref %s))))", x.S, x.S, a.S, x.S), SBool}
 	case *types.Interface:
-		return Term{"(wfVal " + x.S + ")", SBool}
+		aArr := fe.comp(st, "A_E_Val", arrSort(SInt, SBool))
+		aObj := fe.comp(st, "A_M_Str_Val", arrSort(SInt, SBool))
+		return Term{fmt.Sprintf("(and (wfVal %s) (=> (and ((_ is VArr) %s) (not (= (s.ref (varr %s)) 0))) (select %s (s.ref (varr %s)))) (=> (and ((_ is VObj) %s) (not (= (vobj %s) 0))) (select %s (vobj %s))))",
+			x.S, x.S, x.S, aArr.S, x.S, x.S, x.S, aObj.S, x.S), SBool}
 	case *types.Pointer:
 		facts := []Term{tLe(tInt(0), x)}
 		if aset := fe.allocSetOfPointee(u.Elem()); aset != "" {
